@@ -105,6 +105,15 @@ PCORE_FNS_RAW = [
             at_eof(*old(self)) ==> r == (kind == TokenKind::Eof),
             {FUEL_PEEK}
             old(self).fuel > 0 ==> r == (kind == next_kind(*old(self))),"""),
+    Fn(file=P, name="at_unmetered", container="Parser", as_method_of=PI, ret="r",
+       obligation="fuel-free look-ahead for entry assertions: the answer is the input's next token, independent of fuel; nothing but trivia skipping changes",
+       contract=f"""requires old(self).wf(),
+        ensures final(self).wf(), {FRAME}, final(self).events == old(self).events,
+            r == (kind == next_kind(*old(self))),
+            final(self).diagnostics == old(self).diagnostics, final(self).stuck_reported == old(self).stuck_reported,
+            {MU_SAME}""",
+       ghost=[G_ENTRY, ("@entry", "", f"proof {{ {G_SKIP} lemma_nth0(self.input.tokens@, self.input.cursor as int); lemma_nth_skip(self.input.tokens@, self.input.cursor as int, 0); }}"),
+              ("@entry", "", "proof { assert forall|q: Parser| q.input.tokens == p0.input.tokens && q.fuel == p0.fuel && (q.input.cursor == skip_trivia(p0.input.tokens@, p0.input.cursor as int) || q.input.cursor == p0.input.cursor) implies #[trigger] at_eof(q) == at_eof(p0) && nt_left(q) == nt_left(p0) by { lemma_mu_skip(p0, q); } }")]),
     Fn(file=P, name="at_any", container="Parser", as_method_of=PI, ret="r",
        contract=f"""requires old(self).wf(),
         ensures final(self).wf(), {FRAME}, final(self).events == old(self).events,
